@@ -10,8 +10,9 @@ pub fn run(op: &str, a: &Args) -> Option<Args> {
         "c19.bitchunks" => {
             let buf = to_u8s(&a[0]);
             let c = BitChunks::new(&buf, to_usize(&a[1]), to_usize(&a[2]));
+            assert_eq!(c.iter().len(), c.chunk_len());
             vec![c.iter().map(BigInt::from).collect(), g(c.remainder_bits()),
-                 vec![c.chunk_len().into(), c.remainder_len().into()]]
+                 vec![c.chunk_len().into(), c.remainder_len().into(), c.num_u64s().into(), c.num_bytes().into()]]
         }
         "c19.unaligned" => {
             let al = Aligned::new(&to_u8s(&a[0]), to_usize(&a[1]));
@@ -92,7 +93,8 @@ pub fn generate(tier: &str, r: &mut Rng, emit: &mut dyn FnMut(Case)) {
             let dbytes = (ow + len + 7) / 8 + r.below(3);
             let zero_dest = !r.chance(1, 10);
             let dst = if zero_dest { content(r, 0, dbytes.max(1), ow, len) } else { r.bytes(dbytes.max(1)) };
-            let models: &[&str] = if zero_dest { &["c19.set_bits", "c19.set_bits.spec"] } else { &["c19.set_bits"] };
+            // non-zero destinations are compared with the copy specification too: they re-find known finding F6
+            let models: &[&str] = &["c19.set_bits", "c19.set_bits.spec"];
             emit(Case::new("c19.set_bits", vec![gbytes(&dst), gbytes(&buf), g(ow), g(off), g(len)], models,
                 format!("sb z{} r{} w{} {tag}", zero_dest as u8, off % 8, ow % 8)));
         }
@@ -294,11 +296,12 @@ fn lenclass(len: usize) -> usize { if len == 0 { 0 } else if len < 64 { 1 } else
 
 fn generate_api(tier: &str, r: &mut Rng, emit: &mut dyn FnMut(Case)) {
     let n = if tier == "thorough" { 12000 } else { 1200 };
-    let big = |r: &mut Rng| if r.chance(1, 12) { 900 + r.below(1300) } else { r.below(201) };
+    let big = |r: &mut Rng| if r.chance(1, 8) { 900 + r.below(2400) } else { r.below(201) };
     for _ in 0..n {
         // --- unary family
-        let (off, len) = (r.below(131), big(r));
-        let kind = r.below(9);
+        let off = if r.chance(1, 3) { 8 * r.below(17) } else { r.below(131) };
+        let len = big(r);
+        let kind = if len > 600 && r.bool() { 4 + r.below(2) } else { r.below(9) };
         let pad = r.below(4) + 1;
         let buf = content(r, kind, (off + len + 7) / 8 + pad, off, len);
         let api = r.below(16); let align = r.below(8);
@@ -319,7 +322,8 @@ fn generate_api(tier: &str, r: &mut Rng, emit: &mut dyn FnMut(Case)) {
         for _ in 0..steps { let c = r.below(4); codes.push(c as i64); ks.push(if c >= 2 { r.below(len / 3 + 2) as i64 } else { 0 }); }
         emit(Case::new("c19.iter_script", vec![gbytes(&buf), g(off), g(len), gs(&codes), gs(&ks)], &["c19.iter_script.spec"], format!("iters n{steps} l{}", lenclass(len))));
         // --- binary family
-        let (ro, kind2) = (r.below(131), r.below(9));
+        let ro = if r.chance(1, 3) { (off % 64) + 64 * r.below(2) } else if r.chance(1, 4) { 8 * r.below(17) } else { r.below(131) };
+        let kind2 = r.below(9);
         let pad2 = r.below(4) + 1;
         let rbuf = content(r, kind2, (ro + len + 7) / 8 + pad2, ro, len);
         let api = r.below(6);
